@@ -7,6 +7,11 @@ if [ -n "$(git -C /repo status --porcelain --untracked-files=no)" ]; then echo "
 git -C /repo apply --check "$patch" || { echo "patch does not apply"; exit 3; }
 git -C /repo apply "$patch"
 trap 'git -C /repo checkout -- . ' EXIT
+# many checks: rebuild every harness binary in one parallel cargo invocation first, so that the
+# per-check builds below are no-ops
+if [ $# -ge 5 ]; then
+  ( cd "$V/harness" && CARGO_NET_OFFLINE=true CARGO_TARGET_DIR="$V/target" cargo build --offline --profile release -p checks --bins >"$V/target/mut-build.log" 2>&1 )
+fi
 for id in "$@"; do
   "$V/check" "$id" "${TIER:-quick}" >"$V/target/mut-$id.log" 2>&1; rc=$?
   echo "== $id rc=$rc violations=$(grep -c '^VIOLATION' "$V/target/mut-$id.log")"
